@@ -496,6 +496,7 @@ func c07(r *core.Report) {
 		}
 	})
 	c07Anonymous(r)
+	c07Schemes(r)
 }
 
 func fieldOwner(f *types.Var) string {
@@ -626,6 +627,113 @@ func c07Anonymous(r *core.Report) {
 		})
 		if n == 0 {
 			core.Fail("no return of a package-level error on the nil-callback branch found in validateSecurityRequirement")
+		}
+	})
+}
+
+// c07Schemes: every scheme of a requirement is put to the callback, with that requirement's
+// scopes; and a required parameter that is absent is an error whatever default its schema has.
+func c07Schemes(r *core.Report) {
+	p := r.Prog
+	info := p.Pkg("openapi3filter").TypesInfo
+	r.RunRule("C07.everyscheme", "AND over schemes means asking about each one: in validateSecurityRequirement the call of the authentication callback inside the loop over the requirement's scheme names is not preceded, in the loop body, by a `continue` — a verdict remembered from another requirement was given for other scopes", 1, func() {
+		fd := p.DeclOf("openapi3filter", "validateSecurityRequirement")
+		n := 0
+		ast.Inspect(fd.Body, func(nd ast.Node) bool {
+			rs, ok := nd.(*ast.RangeStmt)
+			if !ok {
+				return true
+			}
+			var call *ast.CallExpr
+			ast.Inspect(rs.Body, func(m ast.Node) bool {
+				if c, ok := m.(*ast.CallExpr); ok {
+					if id, ok := ast.Unparen(c.Fun).(*ast.Ident); ok {
+						if _, isFn := info.TypeOf(id).Underlying().(*types.Signature); isFn {
+							if v, isVar := info.ObjectOf(id).(*types.Var); isVar && !v.IsField() && call == nil {
+								call = c
+							}
+						}
+					}
+				}
+				return true
+			})
+			if call == nil {
+				return true
+			}
+			n++
+			key := fmt.Sprintf("everyscheme:callback#%d", n)
+			skip := token.NoPos
+			ast.Inspect(rs.Body, func(m ast.Node) bool {
+				if _, isLit := m.(*ast.FuncLit); isLit {
+					return false
+				}
+				if b, ok := m.(*ast.BranchStmt); ok && b.Tok == token.CONTINUE && b.Pos() < call.Pos() {
+					skip = b.Pos()
+				}
+				return true
+			})
+			if skip == token.NoPos {
+				r.OK(key, p.Pos(call.Pos()), "the callback is asked about every scheme of the requirement")
+			} else {
+				r.Bad(key, p.Pos(skip), "a scheme can be skipped (`continue`) before the authentication callback is asked about it: the requirement is then satisfied without the callback having seen this requirement's scopes for the scheme — an acceptance of `oauth[read]` in one alternative is reused for `oauth[admin]` in another")
+			}
+			return true
+		})
+		if n == 0 {
+			core.Fail("validateSecurityRequirement has no loop that calls a function-valued variable")
+		}
+	})
+	r.RunRule("C07.requiredparam", "a required parameter that is absent is reported whatever its default: in ValidateParameter every return of the missing-required error depends only on the parameter's Required flag and the decoder's `found` result, not on the decoded value (which the default-filling step may have replaced by the schema's default)", 1, func() {
+		fd := p.DeclOf("openapi3filter", "ValidateParameter")
+		ff := core.NewFuncFacts(p, info, fd)
+		n := 0
+		ast.Inspect(fd.Body, func(nd ast.Node) bool {
+			ret, ok := nd.(*ast.ReturnStmt)
+			if !ok || len(ret.Results) != 1 {
+				return true
+			}
+			mentions := false
+			ast.Inspect(ret.Results[0], func(m ast.Node) bool {
+				if id, ok := m.(*ast.Ident); ok && id.Name == "ErrInvalidRequired" {
+					mentions = true
+				}
+				return true
+			})
+			if !mentions {
+				return true
+			}
+			n++
+			key := fmt.Sprintf("requiredparam:return#%d", n)
+			bad := ""
+			for _, a := range core.Atoms(core.GuardsAt(info, fd.Body, ret)) {
+				ast.Inspect(a.Expr, func(m ast.Node) bool {
+					id, ok := m.(*ast.Ident)
+					if !ok {
+						return true
+					}
+					o := info.ObjectOf(id)
+					// the decoded value: an `any`-typed local assigned from a decode call
+					if v, isVar := o.(*types.Var); isVar && !v.IsField() {
+						if _, isIface := v.Type().Underlying().(*types.Interface); isIface && !isErrorType(v.Type()) {
+							for _, as := range ff.Assigns(o) {
+								if as.Call != nil || as.Rhs != nil {
+									bad = core.ExprStr(a.Expr)
+								}
+							}
+						}
+					}
+					return true
+				})
+			}
+			if bad == "" {
+				r.OK(key, p.Pos(ret.Pos()), "depends on Required and found only")
+			} else {
+				r.Bad(key, p.Pos(ret.Pos()), fmt.Sprintf("the missing-required error is returned only when `%s` also holds: after the default-filling step the value of an absent parameter is its schema's default, so an absent required parameter that has a default is validated against its own default and accepted", bad))
+			}
+			return true
+		})
+		if n == 0 {
+			core.Fail("ValidateParameter no longer returns ErrInvalidRequired")
 		}
 	})
 }
